@@ -17,183 +17,209 @@ harness/corr/c12_corr.cpp).  Reads one case per line on stdin, prints one result
   eig3 <tol> <9 hex> / eig4     whole jacobiEigenSolver               -> `<A><S><V>`
   idx <n> <n hex>               maxEigenVector / minEigenVector index  -> `<max> <min>`
 Numbers are 16 hex digits of the bit pattern; NaN prints as `nan`.
+
+A line that starts with the word `f32` is evaluated at `Float32` (IEEE binary32; numbers are 8 hex digits): the SAME generic
+model definitions instantiated at the other element type, compared with the `float` instantiations of the real code
+(harness/corr/c12_corr.cpp compiled with -DC12_FLOAT).  Everything below is generic in the element type `F`; the two
+instantiations are `fmt64` / `fmt32`.
 -/
 open ImathVerif ImathVerif.SHRT ImathVerif.Jacobi
 
-def tmaxF : Float := Float.ofBits 0x7fefffffffffffff
-def tminF : Float := Float.ofBits 0x0010000000000000
+/-- what distinguishes the two element types: text format, square root, `numeric_limits<T>::max ()` / `min ()` -/
+structure Fmt (F : Type) where
+  pf : String → F
+  fstr : F → String
+  sqrt : F → F
+  tmax : F
+  tmin : F
 
 def hexDigit (n : Nat) : Char := if n < 10 then Char.ofNat (48 + n) else Char.ofNat (87 + n)
 def hex64 (u : UInt64) : String :=
   String.mk ((List.range 16).map fun i => hexDigit ((u.toNat >>> (4 * (15 - i))) % 16))
-def fstr (x : Float) : String := if x != x then "nan" else hex64 x.toBits
+def hex32 (u : UInt32) : String :=
+  String.mk ((List.range 8).map fun i => hexDigit ((u.toNat >>> (4 * (7 - i))) % 16))
 def parseHex (s : String) : UInt64 :=
   s.foldl (fun acc c =>
     let d := if c.toNat ≥ 97 then c.toNat - 87 else if c.toNat ≥ 65 then c.toNat - 55 else c.toNat - 48
     acc * 16 + UInt64.ofNat d) 0
-def pf (s : String) : Float := Float.ofBits (parseHex s)
-def strs (xs : List Float) : String := " ".intercalate (xs.map fstr)
+def fmt64 : Fmt Float :=
+  ⟨fun s => Float.ofBits (parseHex s), fun x => if x != x then "nan" else hex64 x.toBits, Float.sqrt,
+   Float.ofBits 0x7fefffffffffffff, Float.ofBits 0x0010000000000000⟩
+def fmt32 : Fmt Float32 :=
+  ⟨fun s => Float32.ofBits (parseHex s).toUInt32, fun x => if x != x then "nan" else hex32 x.toBits, Float32.sqrt,
+   Float32.ofBits 0x7f7fffff, Float32.ofBits 0x00800000⟩
 
-def m33L (m : M33 Float) : List Float := [m.x00, m.x01, m.x02, m.x10, m.x11, m.x12, m.x20, m.x21, m.x22]
-def m44L (m : M44 Float) : List Float :=
+section generic
+variable {F : Type} [Add F] [Sub F] [Mul F] [Div F] [Neg F] [LT F] [LE F] [DecidableLT F] [DecidableLE F] [BEq F]
+  [OfNat F 0] [OfNat F 1] [OfNat F 2] [Inhabited F]
+
+def strs (fm : Fmt F) (xs : List F) : String := " ".intercalate (xs.map fm.fstr)
+
+def m33L (m : M33 F) : List F := [m.x00, m.x01, m.x02, m.x10, m.x11, m.x12, m.x20, m.x21, m.x22]
+def m44L (m : M44 F) : List F :=
   [m.x00, m.x01, m.x02, m.x03, m.x10, m.x11, m.x12, m.x13, m.x20, m.x21, m.x22, m.x23, m.x30, m.x31, m.x32, m.x33]
-def m33Of (a : Array Float) (o : Nat) : M33 Float :=
+def m33Of (a : Array F) (o : Nat) : M33 F :=
   ⟨a[o]!, a[o+1]!, a[o+2]!, a[o+3]!, a[o+4]!, a[o+5]!, a[o+6]!, a[o+7]!, a[o+8]!⟩
-def m44Of (a : Array Float) (o : Nat) : M44 Float :=
+def m44Of (a : Array F) (o : Nat) : M44 F :=
   ⟨a[o]!, a[o+1]!, a[o+2]!, a[o+3]!, a[o+4]!, a[o+5]!, a[o+6]!, a[o+7]!, a[o+8]!, a[o+9]!, a[o+10]!, a[o+11]!,
    a[o+12]!, a[o+13]!, a[o+14]!, a[o+15]!⟩
 
 /-- materialise a function matrix into an array (so that closures do not pile up between steps; `noinline`
 keeps the compiler from fusing the projections back into the closure) -/
-@[noinline] def matArr (n : Nat) (f : Mat Float) : Array Float :=
+@[noinline] def matArr (n : Nat) (f : Mat F) : Array F :=
   (Array.range (n * n)).map fun t => f (t / n) (t % n)
-@[noinline] def vecArr (n : Nat) (f : Nat → Float) : Array Float := (Array.range n).map f
-@[noinline] def matOfArr (n : Nat) (a : Array Float) : Mat Float := fun i j => if i < n ∧ j < n then a[n * i + j]! else 0
-@[noinline] def vecOfArr (a : Array Float) : Nat → Float := fun i => a[i]!
-def matL (n : Nat) (f : Mat Float) : List Float := if n == 3 then m33L (M33.ofFn f) else m44L (M44.ofFn f)
-def vecL (n : Nat) (f : Nat → Float) : List Float := (List.range n).map f
-def ident : Mat Float := fun i j => if i = j then 1 else 0
+@[noinline] def vecArr (n : Nat) (f : Nat → F) : Array F := (Array.range n).map f
+@[noinline] def matOfArr (n : Nat) (a : Array F) : Mat F := fun i j => if i < n ∧ j < n then a[n * i + j]! else 0
+@[noinline] def vecOfArr (a : Array F) : Nat → F := fun i => a[i]!
+def matL (n : Nat) (f : Mat F) : List F := if n == 3 then m33L (M33.ofFn f) else m44L (M44.ofFn f)
+def vecL (n : Nat) (f : Nat → F) : List F := (List.range n).map f
+def ident : Mat F := fun i j => if i = j then 1 else 0
 
 def pairs (n : Nat) : List (Nat × Nat) :=
   if n == 3 then [(0, 1), (0, 2), (1, 2)] else [(0, 1), (0, 2), (0, 3), (1, 2), (1, 3), (2, 3)]
 
 /-- `maxOffDiag`: `result = std::max (result, std::abs (A[i][j]))` over i ≠ j, row-major -/
-def maxOffDiag (n : Nat) (A : Mat Float) : Float :=
+def maxOffDiag (n : Nat) (A : Mat F) : F :=
   (List.range n).foldl (fun r i => (List.range n).foldl (fun r j => if i != j then smax r (sabs (A i j)) else r) r) 0
 /-- `maxOffDiagSymm`: upper triangle only -/
-def maxOffDiagSymm (n : Nat) (A : Mat Float) : Float :=
+def maxOffDiagSymm (n : Nat) (A : Mat F) : F :=
   (List.range n).foldl (fun r i => (List.range n).foldl (fun r j => if i < j then smax r (sabs (A i j)) else r) r) 0
 
-def det3 (m : Mat Float) : Float :=
+def det3 (m : Mat F) : F :=
   m 0 0 * (m 1 1 * m 2 2 - m 1 2 * m 2 1) + m 0 1 * (m 1 2 * m 2 0 - m 1 0 * m 2 2) + m 0 2 * (m 1 0 * m 2 1 - m 1 1 * m 2 0)
 
 /-- iteration state as DATA (arrays): a function-valued state would be re-evaluated at every access -/
-structure SVDArr where
-  A : Array Float
-  U : Array Float
-  V : Array Float
+structure SVDArr (F : Type) where
+  A : Array F
+  U : Array F
+  V : Array F
 
 /-- one sweep of twoSidedJacobiSVD; returns (changed, state) -/
-def svdSweep (n : Nat) (tol : Float) (st : SVDArr) : Bool × SVDArr :=
-  (pairs n).foldl (fun (acc : Bool × SVDArr) jk =>
-    let r := twoSidedJacobiRotation tol Float.sqrt jk.1 jk.2
+def svdSweep (fm : Fmt F) (n : Nat) (tol : F) (st : SVDArr F) : Bool × SVDArr F :=
+  (pairs n).foldl (fun (acc : Bool × SVDArr F) jk =>
+    let r := twoSidedJacobiRotation tol fm.sqrt jk.1 jk.2
       ⟨matOfArr n acc.2.A, matOfArr n acc.2.U, matOfArr n acc.2.V⟩
     (r.1 || acc.1, ⟨matArr n r.2.A, matArr n r.2.U, matArr n r.2.V⟩)) (false, st)
 
 /-- `do { sweep; if (!changed) break; } while (maxOffDiag (A) > absTol && numIter < maxIter)` -/
-def svdLoop (n : Nat) (tol absTol : Float) : Nat → Nat → SVDArr → SVDArr
+def svdLoop (fm : Fmt F) (n : Nat) (tol absTol : F) : Nat → Nat → SVDArr F → SVDArr F
   | 0, _, st => st
   | fuel + 1, numIter, st =>
     let numIter := numIter + 1
-    let r := svdSweep n tol st
+    let r := svdSweep fm n tol st
     if !r.1 then r.2
-    else if absTol < maxOffDiag n (matOfArr n r.2.A) && numIter < 20 then svdLoop n tol absTol fuel numIter r.2 else r.2
+    else if absTol < maxOffDiag n (matOfArr n r.2.A) && numIter < 20 then svdLoop fm n tol absTol fuel numIter r.2 else r.2
 
 /-- whole `twoSidedJacobiSVD`.  The determinants of `forcePositiveDeterminant` are inputs: the harness passes the values
 `U.determinant ()`, `V.determinant ()` that the real code computes on the result of the run without the flag (the same
 `U`, `V` at that point of the code), so that no second determinant routine has to be modelled here. -/
-def svdFull (n : Nat) (force : Bool) (detU detV : Float) (tol : Float) (A : Mat Float) : USV Float :=
+def svdFull (fm : Fmt F) (n : Nat) (force : Bool) (detU detV : F) (tol : F) (A : Mat F) : USV F :=
   let absTol := tol * maxOffDiag n A
-  let st0 : SVDArr := ⟨matArr n A, matArr n ident, matArr n ident⟩
-  let st := if absTol != 0 then svdLoop n tol absTol 21 0 st0 else st0
-  let t : USV Float := ⟨matOfArr n st.U, vecOfArr (vecArr n fun i => matOfArr n st.A i i), matOfArr n st.V⟩
+  let st0 : SVDArr F := ⟨matArr n A, matArr n ident, matArr n ident⟩
+  let st := if absTol != 0 then svdLoop fm n tol absTol 21 0 st0 else st0
+  let t : USV F := ⟨matOfArr n st.U, vecOfArr (vecArr n fun i => matOfArr n st.A i i), matOfArr n st.V⟩
   let t := if n == 3 then post3 t else post4 t
-  let t : USV Float := ⟨matOfArr n (matArr n t.U), vecOfArr (vecArr n t.S), matOfArr n (matArr n t.V)⟩
+  let t : USV F := ⟨matOfArr n (matArr n t.U), vecOfArr (vecArr n t.S), matOfArr n (matArr n t.V)⟩
   if force then forcePos (n - 1) detU detV t else t
 
-structure EigArr where
-  A : Array Float
-  S : Array Float
-  V : Array Float
+structure EigArr (F : Type) where
+  A : Array F
+  S : Array F
+  V : Array F
 
-def eigSweep (n : Nat) (tol : Float) (st : EigArr) : Bool × Array Float × Array Float × Array Float :=
+def eigSweep (fm : Fmt F) (n : Nat) (tol : F) (st : EigArr F) : Bool × Array F × Array F × Array F :=
   -- (changed, A, V, Z)
-  (pairs n).foldl (fun (acc : Bool × Array Float × Array Float × Array Float) jk =>
-    let r := jacobiRotation tol Float.sqrt n jk.1 jk.2 ⟨matOfArr n acc.2.1, matOfArr n acc.2.2.1, vecOfArr acc.2.2.2⟩
+  (pairs n).foldl (fun (acc : Bool × Array F × Array F × Array F) jk =>
+    let r := jacobiRotation tol fm.sqrt n jk.1 jk.2 ⟨matOfArr n acc.2.1, matOfArr n acc.2.2.1, vecOfArr acc.2.2.2⟩
     (r.1 || acc.1, matArr n r.2.A, matArr n r.2.V, vecArr n r.2.Z)) (false, st.A, st.V, vecArr n fun _ => 0)
 
 /-- jacobiEigenSolver: state (A, S, V) -/
-def eigLoop (n : Nat) (tol absTol : Float) : Nat → Nat → EigArr → EigArr
+def eigLoop (fm : Fmt F) (n : Nat) (tol absTol : F) : Nat → Nat → EigArr F → EigArr F
   | 0, _, st => st
   | fuel + 1, numIter, st =>
     let numIter := numIter + 1
-    let r := eigSweep n tol st
+    let r := eigSweep fm n tol st
     -- for i: A[i][i] = S[i] += Z[i]
     let S' := vecArr n fun i => st.S[i]! + r.2.2.2[i]!
     let A' := matArr n fun i j => if i = j ∧ i < n then S'[i]! else matOfArr n r.2.1 i j
-    let st' : EigArr := ⟨A', S', r.2.2.1⟩
+    let st' : EigArr F := ⟨A', S', r.2.2.1⟩
     if !r.1 then st'
-    else if absTol < maxOffDiagSymm n (matOfArr n A') && numIter < 20 then eigLoop n tol absTol fuel numIter st' else st'
+    else if absTol < maxOffDiagSymm n (matOfArr n A') && numIter < 20 then eigLoop fm n tol absTol fuel numIter st' else st'
 
-def eigFull (n : Nat) (tol : Float) (A : Mat Float) : EigArr :=
-  let st0 : EigArr := ⟨matArr n A, vecArr n fun i => A i i, matArr n ident⟩
+def eigFull (fm : Fmt F) (n : Nat) (tol : F) (A : Mat F) : EigArr F :=
+  let st0 : EigArr F := ⟨matArr n A, vecArr n fun i => A i i, matArr n ident⟩
   let absTol := tol * maxOffDiagSymm n A
-  if absTol != 0 then eigLoop n tol absTol 21 0 st0 else st0
+  if absTol != 0 then eigLoop fm n tol absTol 21 0 st0 else st0
 
-def ear33Line (a : Array Float) : String :=
-  match ear33 tmaxF (lengthV2 tminF tmaxF Float.sqrt) (m33Of a 0) with
+def ear33Line (fm : Fmt F) (a : Array F) : String :=
+  match ear33 fm.tmax (lengthV2 fm.tmin fm.tmax fm.sqrt) (m33Of a 0) with
   | none => "0"
-  | some r => "1 " ++ strs (m33L r.m ++ [r.scl.x, r.scl.y, r.shr])
-def ear44Line (a : Array Float) : String :=
-  match ear44 tmaxF (lengthV3 tminF tmaxF Float.sqrt) (m44Of a 0) with
+  | some r => "1 " ++ strs fm (m33L r.m ++ [r.scl.x, r.scl.y, r.shr])
+def ear44Line (fm : Fmt F) (a : Array F) : String :=
+  match ear44 fm.tmax (lengthV3 fm.tmin fm.tmax fm.sqrt) (m44Of a 0) with
   | none => "0"
-  | some r => "1 " ++ strs (m44L r.m ++ [r.scl.x, r.scl.y, r.scl.z, r.shr.x, r.shr.y, r.shr.z])
+  | some r => "1 " ++ strs fm (m44L r.m ++ [r.scl.x, r.scl.y, r.scl.z, r.shr.x, r.shr.y, r.shr.z])
 
 def bstr (b : Bool) : String := if b then "1" else "0"
 
-def handle (ws : List String) : String :=
+def handle (fm : Fmt F) (ws : List String) : String :=
   match ws with
-  | "ear33" :: rest => ear33Line (rest.map pf).toArray
-  | "ear44" :: rest => ear44Line (rest.map pf).toArray
-  | ["len2", x, y] => fstr (lengthV2 tminF tmaxF Float.sqrt ⟨pf x, pf y⟩)
-  | ["len3", x, y, z] => fstr (lengthV3 tminF tmaxF Float.sqrt ⟨pf x, pf y, pf z⟩)
+  | "ear33" :: rest => ear33Line fm (rest.map fm.pf).toArray
+  | "ear44" :: rest => ear44Line fm (rest.map fm.pf).toArray
+  | ["len2", x, y] => fm.fstr (lengthV2 fm.tmin fm.tmax fm.sqrt ⟨fm.pf x, fm.pf y⟩)
+  | ["len3", x, y, z] => fm.fstr (lengthV3 fm.tmin fm.tmax fm.sqrt ⟨fm.pf x, fm.pf y, fm.pf z⟩)
   | "jstep3" :: j :: k :: tol :: rest =>
-    let a := (rest.map pf).toArray
-    let r := twoSidedJacobiRotation (pf tol) Float.sqrt j.toNat! k.toNat!
+    let a := (rest.map fm.pf).toArray
+    let r := twoSidedJacobiRotation (fm.pf tol) fm.sqrt j.toNat! k.toNat!
       ⟨M33.toFn (m33Of a 0), M33.toFn (m33Of a 9), M33.toFn (m33Of a 18)⟩
-    bstr r.1 ++ " " ++ strs (matL 3 r.2.A ++ matL 3 r.2.U ++ matL 3 r.2.V)
+    bstr r.1 ++ " " ++ strs fm (matL 3 r.2.A ++ matL 3 r.2.U ++ matL 3 r.2.V)
   | "jstep4" :: j :: k :: tol :: rest =>
-    let a := (rest.map pf).toArray
-    let r := twoSidedJacobiRotation (pf tol) Float.sqrt j.toNat! k.toNat!
+    let a := (rest.map fm.pf).toArray
+    let r := twoSidedJacobiRotation (fm.pf tol) fm.sqrt j.toNat! k.toNat!
       ⟨M44.toFn (m44Of a 0), M44.toFn (m44Of a 16), M44.toFn (m44Of a 32)⟩
-    bstr r.1 ++ " " ++ strs (matL 4 r.2.A ++ matL 4 r.2.U ++ matL 4 r.2.V)
+    bstr r.1 ++ " " ++ strs fm (matL 4 r.2.A ++ matL 4 r.2.U ++ matL 4 r.2.V)
   | "estep3" :: j :: k :: tol :: rest =>
-    let a := (rest.map pf).toArray
-    let r := jacobiRotation (pf tol) Float.sqrt 3 j.toNat! k.toNat!
+    let a := (rest.map fm.pf).toArray
+    let r := jacobiRotation (fm.pf tol) fm.sqrt 3 j.toNat! k.toNat!
       ⟨M33.toFn (m33Of a 0), M33.toFn (m33Of a 9), V3.toFn ⟨a[18]!, a[19]!, a[20]!⟩⟩
-    bstr r.1 ++ " " ++ strs (matL 3 r.2.A ++ matL 3 r.2.V ++ vecL 3 r.2.Z)
+    bstr r.1 ++ " " ++ strs fm (matL 3 r.2.A ++ matL 3 r.2.V ++ vecL 3 r.2.Z)
   | "estep4" :: j :: k :: tol :: rest =>
-    let a := (rest.map pf).toArray
-    let r := jacobiRotation (pf tol) Float.sqrt 4 j.toNat! k.toNat!
+    let a := (rest.map fm.pf).toArray
+    let r := jacobiRotation (fm.pf tol) fm.sqrt 4 j.toNat! k.toNat!
       ⟨M44.toFn (m44Of a 0), M44.toFn (m44Of a 16), V4.toFn ⟨a[32]!, a[33]!, a[34]!, a[35]!⟩⟩
-    bstr r.1 ++ " " ++ strs (matL 4 r.2.A ++ matL 4 r.2.V ++ vecL 4 r.2.Z)
+    bstr r.1 ++ " " ++ strs fm (matL 4 r.2.A ++ matL 4 r.2.V ++ vecL 4 r.2.Z)
   | "svd3" :: force :: su :: sv :: tol :: rest =>
-    let a := (rest.map pf).toArray
-    let t := svdFull 3 (force == "1") (pf su) (pf sv) (pf tol) (M33.toFn (m33Of a 0))
-    strs (matL 3 t.U ++ vecL 3 t.S ++ matL 3 t.V)
+    let a := (rest.map fm.pf).toArray
+    let t := svdFull fm 3 (force == "1") (fm.pf su) (fm.pf sv) (fm.pf tol) (M33.toFn (m33Of a 0))
+    strs fm (matL 3 t.U ++ vecL 3 t.S ++ matL 3 t.V)
   | "svd4" :: force :: su :: sv :: tol :: rest =>
-    let a := (rest.map pf).toArray
-    let t := svdFull 4 (force == "1") (pf su) (pf sv) (pf tol) (M44.toFn (m44Of a 0))
-    strs (matL 4 t.U ++ vecL 4 t.S ++ matL 4 t.V)
+    let a := (rest.map fm.pf).toArray
+    let t := svdFull fm 4 (force == "1") (fm.pf su) (fm.pf sv) (fm.pf tol) (M44.toFn (m44Of a 0))
+    strs fm (matL 4 t.U ++ vecL 4 t.S ++ matL 4 t.V)
   | "eig3" :: tol :: rest =>
-    let a := (rest.map pf).toArray
-    let r := eigFull 3 (pf tol) (M33.toFn (m33Of a 0))
-    strs (r.A.toList ++ r.S.toList ++ r.V.toList)
+    let a := (rest.map fm.pf).toArray
+    let r := eigFull fm 3 (fm.pf tol) (M33.toFn (m33Of a 0))
+    strs fm (r.A.toList ++ r.S.toList ++ r.V.toList)
   | "eig4" :: tol :: rest =>
-    let a := (rest.map pf).toArray
-    let r := eigFull 4 (pf tol) (M44.toFn (m44Of a 0))
-    strs (r.A.toList ++ r.S.toList ++ r.V.toList)
+    let a := (rest.map fm.pf).toArray
+    let r := eigFull fm 4 (fm.pf tol) (M44.toFn (m44Of a 0))
+    strs fm (r.A.toList ++ r.S.toList ++ r.V.toList)
   | "idx" :: n :: rest =>
-    let a := (rest.map pf).toArray
-    let S : Nat → Float := fun i => a[i]!
+    let a := (rest.map fm.pf).toArray
+    let S : Nat → F := fun i => a[i]!
     s!"{maxIdx n.toNat! S} {minIdx n.toNat! S}"
   | _ => "?"
+
+end generic
 
 partial def loop (h : IO.FS.Stream) (out : IO.FS.Stream) : IO Unit := do
   let line ← h.getLine
   if line.isEmpty then return ()
   let ws := (line.trimRight.splitOn " ").filter (· ≠ "")
-  if !ws.isEmpty then out.putStrLn (handle ws)
+  match ws with
+  | [] => pure ()
+  | "f32" :: rest => out.putStrLn (handle fmt32 rest)
+  | _ => out.putStrLn (handle fmt64 ws)
   loop h out
 
 def main : IO Unit := do
